@@ -598,6 +598,9 @@ func (c *Chunk) ToMarkdownWithOptions(opts MarkdownOptions) string {
 		if opts.MaxHeadingLevel > 0 && level > opts.MaxHeadingLevel {
 			level = opts.MaxHeadingLevel
 		}
+		if level > 6 {
+			level = 6 // Markdown has six heading levels; more '#' would be plain text
+		}
 		sb.WriteString(strings.Repeat("#", level))
 		sb.WriteString(" ")
 		sb.WriteString(c.Metadata.SectionTitle)
